@@ -310,10 +310,11 @@ pub fn foreign_small_download(srv: &Srv) -> bool {
 /// listen loop, so everything sent to the listening port before it has been handled when it returns.
 pub fn barrier(srv: &Srv) -> bool {
     let mut c = Client::new(srv.addr);
-    c.to_server(&rc::request(false, b"__verif_barrier_missing__", &[]));
     let t0 = Instant::now();
     while t0.elapsed() < BACKSTOP {
-        if let Some((b, _)) = c.recv_wait(Duration::from_millis(50)) {
+        // (re-sent if unanswered: a listener flooded with stale datagrams may have had the probe dropped by the kernel)
+        c.to_server(&rc::request(false, b"__verif_barrier_missing__", &[]));
+        if let Some((b, _)) = c.recv_wait(Duration::from_millis(100)) {
             if matches!(rc::decode(&b), Ok(RPacket::Error { .. })) {
                 return true;
             }
@@ -599,6 +600,10 @@ pub fn download_on(c: &mut Client, srv: &Srv, name: &[u8], opts: &[(String, Stri
     while let Some((b, _)) = c.try_recv() {
         r.anomalies.push(format!("datagram after the end: {}", rc::describe(&b)));
     }
+    if ack_mode != 0 {
+        barrier(srv); // our surplus ACKs may still be queued at the listener
+        while c.try_recv().is_some() {}
+    }
     r.sources = c.sources.clone();
     r
 }
@@ -730,8 +735,10 @@ pub fn upload_faulty(srv: &Srv, name: &[u8], opts: &[(String, String)], payload:
     let mut c = Client::new(srv.addr);
     let mut r = Ul::default();
     c.to_server(&rc::request(true, name, opts));
+    let t_req = Instant::now();
     let Some((b, _)) = reply_or_quiet(srv, &mut c) else {
         r.first = "none".into();
+        r.anomalies.push(format!("no reply to the WRQ after {:?} (threads {}, baseline {}, local port {})", t_req.elapsed(), task_count(), current_baseline(), c.local_port()));
         quiesce();
         return r;
     };
@@ -756,6 +763,7 @@ pub fn upload_faulty(srv: &Srv, name: &[u8], opts: &[(String, String)], payload:
             return r;
         }
         _ => {
+            r.anomalies.push(format!("unexpected first reply {} from {:?} (server {})", rc::describe(&b), c.sources.last(), srv.addr));
             c.to_peer_guarded(&rc::error(0, "unexpected"));
             quiesce();
             return r;
@@ -842,12 +850,17 @@ pub fn upload_faulty(srv: &Srv, name: &[u8], opts: &[(String, String)], payload:
                 r.anomalies.push(format!("server gave up while blocks {base}..{hi} were outstanding"));
                 break 'outer;
             }
+            // let the listener work off what it has before the window is sent again (in single-port mode every datagram
+            // passes through it; flooding its socket buffer would make the kernel drop datagrams, an un-modelled loss)
+            barrier(srv);
         }
     }
     if !r.completed {
         c.to_peer_guarded(&rc::error(0, "abort"));
     }
     quiesce();
+    // duplicates of ours may still be queued at the listener: let it drain before anybody sends the next request
+    barrier(srv);
     r.sources = c.sources.clone();
     r
 }
